@@ -141,3 +141,76 @@ Proof.
   - cbn. intros [H|[]]. discriminate.
   - constructor; [intros []|constructor].
 Qed.
+
+(* ---- which client object carries the call ---- *)
+Lemma behaves_as_run who c slow : behaves_as who c slow (run_client who c slow) = true.
+Proof.
+  unfold behaves_as, run_client.
+  destruct (slow && c_timeout c); cbn; now rewrite !Nat.eqb_refl.
+Qed.
+
+Lemma behaves_as_unique who c slow t : behaves_as who c slow t = true -> t = run_client who c slow.
+Proof.
+  unfold behaves_as, run_client. destruct t as [tr rd jar ck res]. cbn.
+  intros H. apply andb_true_iff in H as [H H4]. apply andb_true_iff in H as [H H3].
+  apply andb_true_iff in H as [H1 H2].
+  apply Nat.eqb_eq in H1, H2, H3. subst tr jar ck.
+  destruct (slow && c_timeout c).
+  - apply andb_true_iff in H4 as [Ha Hb]. apply Nat.eqb_eq in Ha, Hb. now subst.
+  - apply andb_true_iff in H4 as [Ha Hb]. apply Nat.eqb_eq in Ha, Hb. now subst.
+Qed.
+
+Lemma right_client_route op rt slow : right_client op rt slow (route_call op rt slow) = true.
+Proof. destruct op as [c|]; cbn; apply behaves_as_run. Qed.
+
+Lemma right_client_unique op rt slow t : right_client op rt slow t = true -> t = route_call op rt slow.
+Proof. destruct op as [c|]; cbn; apply behaves_as_unique. Qed.
+
+(* with an operation client the runtime client plays no part, whichever fields the operation client sets
+   (in particular when it has no Transport of its own) *)
+Lemma op_client_alone c rt rt' slow : route_call (Some c) rt slow = route_call (Some c) rt' slow.
+Proof. reflexivity. Qed.
+
+(* and a call carried by a runtime client is told apart from one carried by the operation client as soon as the
+   operation client sets anything at all: a transport, a jar or a redirect policy *)
+Lemma other_client_rejected c rt rt' :
+  c_transport c = true \/ c_jar c = true \/ c_redirect c <> 0 ->
+  right_client (Some c) rt false (run_client who_rt rt' false) = false.
+Proof.
+  intros H. cbn [right_client]. unfold behaves_as, run_client. cbn [andb t_transport t_redirect t_jar t_cookie t_result].
+  destruct c as [ctr crd cjar cto]. destruct rt' as [rtr rrd rjar rto]. cbn [c_transport c_redirect c_jar c_timeout] in *.
+  destruct H as [H|[H|H]].
+  - subst ctr. destruct rtr; reflexivity.
+  - subst cjar. destruct ctr, rtr, rjar; reflexivity.
+  - apply Nat.eqb_neq in H. rewrite H. cbn [negb mask_of].
+    destruct ctr, rtr, cjar, rjar, (Nat.eqb rrd 0); reflexivity.
+Qed.
+
+Example ex_bare_operation_client :
+  (* an operation client that only sets a stopping redirect policy, against a runtime client with a transport
+     and a jar: the default transport is used, no jar, the redirect response reaches the reader *)
+  route_call (Some (mkclient false 2 false false)) (mkclient true 0 true false) false = mktrace who_default who_op 0 0 1 /\
+  right_client (Some (mkclient false 2 false false)) (mkclient true 0 true false) false
+               (run_client who_rt (mkclient true 0 true false) false) = false.
+Proof. split; reflexivity. Qed.
+
+(* ---- kept responses ---- *)
+Lemma retained_independent cs1 pc cs2 :
+  nth_error (retained_all (cs1 ++ pc :: cs2)) (length cs1) = Some (retained_view (snd pc)).
+Proof.
+  unfold retained_all. rewrite map_app. cbn [map].
+  rewrite nth_error_app2; rewrite map_length; [|apply Nat.le_refl].
+  now rewrite Nat.sub_diag.
+Qed.
+
+Lemma retained_is_sent r :
+  retained_view r = (r_code r, r_status r, hd [] (get_headers r x_token), hd [] (get_headers r content_type)).
+Proof. reflexivity. Qed.
+
+Lemma submit_all_pointwise reg d cs1 pc cs2 :
+  nth_error (submit_all reg d (cs1 ++ pc :: cs2)) (length cs1) = Some (submit_response reg d (fst pc) (snd pc)).
+Proof.
+  unfold submit_all. rewrite map_app. cbn [map].
+  rewrite nth_error_app2; rewrite map_length; [|apply Nat.le_refl].
+  now rewrite Nat.sub_diag.
+Qed.
